@@ -9,6 +9,7 @@ import (
 	"reflect"
 	"regexp"
 	"strings"
+	"unsafe"
 )
 
 // bltn type defines functions which run at CFG execution.
@@ -130,15 +131,21 @@ func isExecNode(n *node, exec bltn) bool {
 		return false
 	}
 
-	a1 := reflect.ValueOf(n.exec).Pointer()
-	a2 := reflect.ValueOf(exec).Pointer()
-	return a1 == a2
+	return execAddr(n.exec) == execAddr(exec)
+}
+
+// execAddr identifies the closure held by exec. reflect.Value.Pointer returns
+// the code pointer, which is the same for all closures generated from one
+// function literal (e.g. the exec of every assign node), and cannot tell them
+// apart; the closure object itself is unique per node.
+func execAddr(exec bltn) uintptr {
+	return *(*uintptr)(unsafe.Pointer(&exec))
 }
 
 // originalExecNode looks in the tree of nodes for the node which has exec,
 // aside from n, in order to know where n "inherited" that exec from.
 func originalExecNode(n *node, exec bltn) *node {
-	execAddr := reflect.ValueOf(exec).Pointer()
+	addr := execAddr(exec)
 	var originalNode *node
 	seen := make(map[int64]struct{})
 	root := n
@@ -162,7 +169,7 @@ func originalExecNode(n *node, exec bltn) *node {
 			if wn.exec == nil {
 				return true
 			}
-			if reflect.ValueOf(wn.exec).Pointer() == execAddr {
+			if execAddr(wn.exec) == addr {
 				originalNode = wn
 				return false
 			}
